@@ -8,7 +8,7 @@ TRUSTED_BASE = base.TRUSTED_BASE
 ASSUMPTIONS = base.ASSUMPTIONS + ['quantifier: integers (codes or integer values) and raw-mode strings, as scalars and as lists/tuples of Python integers; ndarray carriers of wide codes are judged by C11',
                                   'bin()/hex() and bitwise operators at these widths reuse the ops of C11 and C13 (same model functions, unbounded in n_word)']
 RULE = ('X18 lines: n_word in {64,65,66,72,96,127,128,129,200,256} x n_frac in {0,1,n/2,n-1,n} x signedness x overflow; integers at and just beyond both bounds, multiples of the modulus +- small, random up to 4x the word; '
-        'routes raw constructor / raw set_val / integer value / bin string raw / hex string raw; EX lines: extended_prec after construction, resize and reset for word lengths around 64; plus SB/SH/SP (C11 ops) and BW (C13 ops) at these widths. '
+        'routes raw constructor / raw set_val / integer value / bin string raw / hex string raw; EX lines: extended_prec after construction, resize, reset, like= (with and without a value), deepcopy, indexing, word-only construction and x+x for word lengths around 64; plus SB/SH/SP (C11 ops) and BW (C13 ops) at these widths. '
         'non-trivial = the integer is out of range (saturated or wrapped) or needs more than 63 bits')
 TECHNIQUE = 'Lean 4 theorems unbounded in n_word (C01 spec_iff, C03 wrap uniqueness, C11 round trips, C13 patterns instantiated at wide words; extended_prec iff n_word>=64) + differential correspondence on the wide grid'
 LEVEL_TEXT = ('The C01/C03/C11/C13 theorems hold for every n_word, so 64..256 bits are not a special case of the model: an in-range integer code is stored unchanged, an out-of-range one is clamped to its own side or reduced to the unique congruent code, flags exact. '
@@ -57,9 +57,18 @@ def exec_EX(t):
         # the rest of the status record stays usable after reset
         _ = (x.status['overflow'], x.status['underflow'], x.status['inaccuracy'])
         x(3)
-    except Exception as e:
-        return [exc_token(e)]
-    return [tok_bool(a), tok_bool(b), tok_bool(c)]
+        # every other way of obtaining an object of that word length
+        import copy
+        d = Fxp(1, like=x).status['extended_prec']
+        e = Fxp(None, like=x).status['extended_prec']
+        f = (copy.deepcopy(x) if n1 % 2 else x.deepcopy()).status['extended_prec']
+        arr = Fxp([1, 2], s, n2, 0)
+        g = arr[1].status['extended_prec']
+        h = Fxp(1, s, n2).status['extended_prec']           # n_frac inferred, word given
+        i = (x + x).status['extended_prec']                 # one bit more than x
+    except Exception as e_:
+        return [exc_token(e_)]
+    return [tok_bool(v) for v in (a, b, c, d, e, f, g, h, i)]
 
 
 EXEC = {'X18': exec_X18, 'EX': exec_EX, 'SB': c11.exec_SB, 'SH': c11.exec_SH, 'SP': c11.exec_SP, 'BW': c13.exec_BW}
